@@ -452,6 +452,39 @@ fn family() -> Vec<EvalCase> {
             out.push(mk_case(e));
         }
     }
+    // an operand that fails by itself (unknown symbol, unknown reference) before a call: the call is not reached;
+    // for every strict binary kind and for membership in both operand orders
+    for kind in BINARY_KINDS {
+        if matches!(kind, "and" | "or") {
+            continue;
+        }
+        for bad in [Expr::symbol("nosuchsymbol"), Expr::reff("zz9"), Expr::index(Expr::value(1), Index::Vec(0))] {
+            out.push(mk_case(mk2(kind, bad.clone(), Expr::func("lp", Expr::value(96_001)))));
+            out.push(mk_case(mk2(kind, Expr::func("lp", Expr::value(96_002)), bad.clone())));
+            out.push(mk_case(mk2(kind, bad.clone(), Expr::div(Expr::value(1), Expr::value(0)))));
+        }
+    }
+    // == / != between two list literals: all items of the left list, then all items of the right one, whatever they equal
+    for neq in [false, true] {
+        for n in [2usize, 3] {
+            for variant in 0..4u8 {
+                let call = |k: i128| Expr::index(Expr::func("lp", Expr::value(k)), Index::Vec(1));
+                let left: Vec<Expr> = (0..n).map(|i| call(97_000 + i as i128)).collect();
+                let right: Vec<Expr> = (0..n)
+                    .map(|i| match (variant, i) {
+                        (0, _) => call(97_000 + i as i128),                 // equal lists
+                        (1, _) => call(97_100 + i as i128),                 // unequal from the first pair on
+                        (2, i) if i == n - 1 => Expr::div(Expr::value(1), Expr::value(0)), // an error behind an unequal pair
+                        (2, _) => call(97_200 + i as i128),
+                        (_, i) if i == n - 1 => Expr::func("fp", Expr::value(97_300)),
+                        (_, _) => call(97_000 + i as i128),
+                    })
+                    .collect();
+                let e = if neq { Expr::neq(Expr::Vec(left), Expr::Vec(right)) } else { Expr::eq(Expr::Vec(left), Expr::Vec(right)) };
+                out.push(mk_case(e));
+            }
+        }
+    }
     // long lists and maps: every item once, in order, up to the failing one
     for n in [33usize, 129, 300] {
         for bad in [n / 2, n - 1, n] {
